@@ -61,6 +61,28 @@ fn check_triple(r: &Report, a: u64, b: u64, f: u64) {
             case: json!({"kind":"triple","a":a.to_string(),"b":b.to_string(),"f":f.to_string()}),
         });
     }
+    // the same pair through the tagged `Timestamp`, the route the sampling loop and the timers take
+    let tagged = verif::timestamp_duration_since(b, a, f);
+    if tagged != want {
+        r.violation(Violation {
+            sig: json!({"check":"tagged_duration","class": if b < a {"b<a"} else {"a<=b"}}),
+            text: format!("Timestamp::duration_since(b={b}, a={a}, f={f}) = {tagged} ps through the tagged route, exact floor((b-a)*10^12/f) = {want} ps"),
+            case: json!({"kind":"triple","a":a.to_string(),"b":b.to_string(),"f":f.to_string()}),
+        });
+    }
+}
+
+/// The OS arm of the tagged route: instants `a` and `b` nanoseconds after a common base.
+fn check_os_pair(r: &Report, a: u64, b: u64) {
+    let got = verif::os_timestamp_duration_since(b, a);
+    let want = if b < a { 0 } else { (b - a) as u128 * 1000 };
+    if got != want {
+        r.violation(Violation {
+            sig: json!({"check":"os_duration","class": if b < a {"b<a"} else {"a<=b"}}),
+            text: format!("Timestamp::Os: the difference of instants base+{b} ns and base+{a} ns is {got} ps, expected {want} ps"),
+            case: json!({"kind":"os_pair","a":a.to_string(),"b":b.to_string()}),
+        });
+    }
 }
 
 fn check_derived(r: &Report, a: u64, m: u64, b: u64, f: u64) {
@@ -274,6 +296,7 @@ fn main() {
             "precision" => {
                 check_precision(&r, parse_u64(&case["step"]), parse_u64(&case["delta"]), parse_u64(&case["f"]));
             }
+            "os_pair" => check_os_pair(&r, parse_u64(&case["a"]), parse_u64(&case["b"])),
             "reported" => check_reported(&r, parse_u64(&case["step"]), parse_u64(&case["f"]), case["seq"].as_str().unwrap()),
             k => panic!("unknown case kind {k}"),
         }
@@ -311,6 +334,13 @@ fn main() {
         let b = (i / (dense - 1)) % dense;
         let a = i / ((dense - 1) * dense);
         check_triple(&r, a, b, f);
+        r.case(1);
+    });
+    // (b') OS instants: all pairs of offsets over a lattice up to about 292 years
+    let os: Vec<u64> = bs.iter().copied().filter(|x| *x < (1u64 << 62)).collect();
+    let no = os.len() as u64;
+    par_for(no * no, |i| {
+        check_os_pair(&r, os[(i / no) as usize], os[(i % no) as usize]);
         r.case(1);
     });
     // (c) Durations
